@@ -6,6 +6,7 @@
 //!     filter : off | - (empty allow-list) | h<hex>,h<hex>,...     (allow-list entries, UTF-8 strings)
 //!     hosts  : - (no Host header)  | h<hex>,h<hex>,...            (one header line per item, raw bytes)
 //!     uri    : - (the default request-target "/") | h<hex>         (raw bytes given to `Uri::try_from`)
+//!   seq <filter> <hosts>|<uri> ...   -> `<status> <ran>` per request joined by `;`  (one layer, requests in order)
 //!   port      : D (default) | A (`*`) | F<n>
 //!   authority : none | h<hosthex>:<port>       (what `Authority::from_http_request` decides)
 //! Order of the early exits (the same in the model driver): nostr, nohdr, nouri, badlist.
@@ -126,6 +127,70 @@ fn handle(line: &str) -> String {
 				Poll::Pending => return "?pending".into(),
 			};
 			format!("{} {} {}", status, ran.load(Ordering::SeqCst), decided)
+		}
+		// seq <filter> <hosts>|<uri> <hosts>|<uri> ...  : ONE layer (as the server keeps one per service builder), a fresh
+		// service built from it per request (as the server does per connection/request), the requests in order; output =
+		// the `<status> <ran>` of every request joined by `;` (early exits nostr / nohdr / nouri / badlist as for `req`)
+		"seq" => {
+			let filter = it.next().unwrap_or("-");
+			let mut allow: Option<Vec<String>> = None;
+			if filter != "off" {
+				let mut v = Vec::new();
+				for e in list(filter) {
+					match String::from_utf8(e) {
+						Ok(s) => v.push(s),
+						Err(_) => return "nostr".into(),
+					}
+				}
+				allow = Some(v);
+			}
+			let layer = match allow {
+				None => HostFilterLayer::disable(),
+				Some(v) => match HostFilterLayer::new(v) {
+					Ok(l) => l,
+					Err(_) => return "badlist".into(),
+				},
+			};
+			let mut out = Vec::new();
+			for item in it {
+				let (hosts_s, uri) = item.split_once('|').unwrap_or((item, "-"));
+				let mut req = HttpRequest::new(ReqBody::new());
+				let mut bad = None;
+				for h in &list(hosts_s) {
+					match http::HeaderValue::from_bytes(h) {
+						Ok(v) => {
+							req.headers_mut().append(http::header::HOST, v);
+						}
+						Err(_) => bad = Some("nohdr"),
+					}
+				}
+				if uri != "-" {
+					let b = unhex(uri.strip_prefix('h').expect("uri prefix"));
+					match http::Uri::try_from(&b[..]) {
+						Ok(u) => *req.uri_mut() = u,
+						Err(_) => bad = bad.or(Some("nouri")),
+					}
+				}
+				if let Some(b) = bad {
+					out.push(b.to_string());
+					continue;
+				}
+				let ran = Arc::new(AtomicUsize::new(0));
+				let mut svc = layer.layer(Recording(ran.clone()));
+				let mut cx = Context::from_waker(Waker::noop());
+				match svc.poll_ready(&mut cx) {
+					Poll::Ready(Ok(())) => {}
+					_ => return "?not-ready".into(),
+				}
+				let mut fut = svc.call(req);
+				let status = match fut.as_mut().poll(&mut cx) {
+					Poll::Ready(Ok(resp)) => resp.status().as_u16(),
+					Poll::Ready(Err(_)) => return "?service-error".into(),
+					Poll::Pending => return "?pending".into(),
+				};
+				out.push(format!("{} {}", status, ran.load(Ordering::SeqCst)));
+			}
+			out.join(";")
 		}
 		_ => "?unknown-kind".into(),
 	}
